@@ -97,6 +97,8 @@ def classes(tokens):
                 out.add('KF-03c')       # accessor with a string / number key
         if '\\u' in t and not (t[:1] in '\'"/'):
             out.add('KF-06d')           # unicode escape in an identifier
+        if ('\u200c' in t or '\u200d' in t) and not (t[:1] in '\'"/'):
+            out.add('KF-06e')           # ZWNJ / ZWJ as identifier part
         if t[:1].isdigit() and nxt is not None and IDENT.match(nxt) and nxt in ('in', 'instanceof'):
             pass
     # NoIn handling: an `in` operator at bracket depth 0 inside the initialiser of a classic for(;;) header
